@@ -214,15 +214,15 @@ Proof.
 Qed.
 
 (* the default command picked is one of the collection *)
-Lemma pick_default_in toks : forall ds first dc r, pick_default ds toks first = Ok (Some (dc, r)) ->
+Lemma pick_default_in toks : forall ds first dc r, help_pick_default ds toks first = Ok (Some (dc, r)) ->
   In dc ds \/ exists k, first = Some (dc, k).
 Proof.
-  induction ds as [|d r0 IH]; intros first dc r; cbn [pick_default].
+  induction ds as [|d r0 IH]; intros first dc r; cbn [help_pick_default].
   - destruct first as [[b k]|]; [|discriminate]. intros E. injection E as <- _. right. now exists k.
   - destruct (parse (b_fmt d) (b_lenient d) toks) as [x|k].
     + intros E. injection E as <- _. left. now left.
-    + destruct k; try discriminate. intros E. apply IH in E as [Hin|[k Hk]]; [left; now right|].
-      destruct first as [[b0 k0]|]; [right; now exists k|]. injection Hk as <- _. left. now left.
+    + destruct k; try discriminate; intros E; apply IH in E as [Hin|[k Hk]]; try (left; now right);
+        (destruct first as [[b0 k0]|]; [right; now exists k|]; injection Hk as <- _; left; now left).
 Qed.
 
 (* ---------- the names along a position ---------- *)
@@ -285,13 +285,13 @@ Definition strip_help (toks : list str) : list str :=
   match toks with t :: r => if str_eqb t S_help then r else toks | [] => [] end.
 Lemma help_target_is_pick a toks :
   help_target a toks =
-  (do t <- help_pick a toks; let '(c, pth, _) := t in do x <- parse (b_fmt c) true (strip_help toks); Ok pth).
+  (do t <- help_pick a toks; let '(c, pth, _) := t in do x <- help_lenient (b_fmt c) (strip_help toks); Ok pth).
 Proof.
   unfold help_target, help_pick. fold (strip_help toks).
   destruct (walk (named_of (ap_cmds a)) None (leading (strip_help toks))) as [[[b pth]|]|k]; cbn [bind]; [| |reflexivity].
-  - destruct (pick_default (defaults_of (b_subs b)) (strip_help toks) None) as [[[dc r]|]|k]; reflexivity.
+  - destruct (help_pick_default (defaults_of (b_subs b)) (strip_help toks) None) as [[[dc r]|]|k]; reflexivity.
   - destruct (leading (strip_help toks)); [|reflexivity].
-    destruct (pick_default (defaults_of (ap_cmds a)) (strip_help toks) None) as [[[dc r]|]|k]; reflexivity.
+    destruct (help_pick_default (defaults_of (ap_cmds a)) (strip_help toks) None) as [[[dc r]|]|k]; reflexivity.
 Qed.
 
 (* the position help_pick reports exists, holds exactly the command picked, and its names are the reported path *)
@@ -301,14 +301,14 @@ Proof.
   unfold help_pick. fold (strip_help toks).
   destruct (walk (named_of (ap_cmds a)) None (leading (strip_help toks))) as [[[b pb]|]|k] eqn:Ew; cbn [bind]; [| |discriminate].
   - apply walk_locate in Ew as [Ew|(q & p & -> & Hq & Hp)]; [discriminate|]. cbn [cur_path app].
-    destruct (pick_default (defaults_of (b_subs b)) (strip_help toks) None) as [[[dc r]|]|k] eqn:Ed; cbn [bind]; [| |discriminate].
+    destruct (help_pick_default (defaults_of (b_subs b)) (strip_help toks) None) as [[[dc r]|]|k] eqn:Ed; cbn [bind]; [| |discriminate].
     + intros E. injection E as <- <- <-. apply pick_default_in in Ed as [Hin|[k Hk]]; [|discriminate].
       apply defaults_of_pos in Hin as (i & Hi & Hn). rewrite Hq, Hi. exists (p ++ [i]). repeat split.
       * now rewrite (cmd_at_snoc _ _ _ i Hp).
       * apply (names_at_snoc p _ q b i dc); [now apply locate_named_names|exact Hp|exact Hn].
     + intros E. injection E as <- <- <-. exists p. repeat split; [exact Hq|exact Hp|now apply locate_named_names].
   - destruct (leading (strip_help toks)); [|discriminate].
-    destruct (pick_default (defaults_of (ap_cmds a)) (strip_help toks) None) as [[[dc r]|]|k] eqn:Ed; cbn [bind]; [| |discriminate]; [|discriminate].
+    destruct (help_pick_default (defaults_of (ap_cmds a)) (strip_help toks) None) as [[[dc r]|]|k] eqn:Ed; cbn [bind]; [| |discriminate]; [|discriminate].
     intros E. injection E as <- <- <-. apply pick_default_in in Ed as [Hin|[k Hk]]; [|discriminate].
     apply defaults_of_pos in Hin as (i & Hi & Hn). rewrite Hi. exists [i]. cbn [option_map]. repeat split.
     + rewrite cmd_at_cons, Hn. reflexivity.
@@ -322,7 +322,7 @@ Lemma help_target_has_position a toks pth : help_target a toks = Ok pth ->
               cmd_at (ap_cmds a) p = Some c /\ names_at (ap_cmds a) p = Some pth.
 Proof.
   rewrite help_target_is_pick. unfold help_target_pos. destruct (help_pick a toks) as [[[c q] o]|k] eqn:E; cbn [bind]; [|discriminate].
-  destruct (parse (b_fmt c) true (strip_help toks)); cbn [bind]; [|discriminate]. intros H. injection H as <-.
+  destruct (help_lenient (b_fmt c) (strip_help toks)); cbn [bind]; [|discriminate]. intros H. injection H as <-.
   destruct (help_pick_position _ _ _ _ _ E) as (p & -> & Hc & Hn). now exists c, p.
 Qed.
 Lemma run_on_records st a toks c pth o : help_pick (apply_state st a) toks = Ok (c, pth, o) ->
